@@ -91,6 +91,7 @@ struct Cell
   uint32_t permille = 300, iocap = 0, dist = 0, hsSends = 2;
   int sndbuf = 4096, rcvbuf = 4096, peerRcvbuf = 8192, iochunk = 65536, pauses = 100;
   size_t mwq = 1024;
+  uint32_t rwmin = 0; // > 0: every reverse write of the peer (one TLS record each up to 16 KiB) is at least this large
   bool cbsend = false; // a callback sender (onData, I/O thread) sends on the same session concurrently with the threads
   uint64_t window = 1u << 20; // sender throttle: accepted-but-not-yet-received bytes
   std::string fin = "half"; // half | app | stop
@@ -104,7 +105,7 @@ struct Cell
     o << "{\"tls\":" << tls << ",\"tlsmax\":" << tlsMax << ",\"et\":" << et << ",\"batch\":" << batch << ",\"role\":\"" << (peerIsServer ? "client" : "server")
       << "\",\"threads\":" << threads << ",\"sessions\":" << sessions << ",\"bytes\":" << bytes << ",\"rbytes\":" << rbytes << ",\"permille\":" << permille
       << ",\"iocap\":" << iocap << ",\"dist\":" << dist << ",\"hssends\":" << hsSends << ",\"sndbuf\":" << sndbuf << ",\"rcvbuf\":" << rcvbuf
-      << ",\"peerrcvbuf\":" << peerRcvbuf << ",\"iochunk\":" << iochunk << ",\"pauses\":" << pauses << ",\"mwq\":" << mwq << ",\"cbsend\":" << cbsend << ",\"window\":" << window << ",\"fin\":\"" << fin
+      << ",\"peerrcvbuf\":" << peerRcvbuf << ",\"iochunk\":" << iochunk << ",\"pauses\":" << pauses << ",\"mwq\":" << mwq << ",\"cbsend\":" << cbsend << ",\"rwmin\":" << rwmin << ",\"window\":" << window << ",\"fin\":\"" << fin
       << "\",\"fault\":\"" << fault << "\",\"seed\":" << seed << ",\"cell\":" << cell << "}";
     return o.str();
   }
@@ -553,7 +554,8 @@ int runStream(const Cell &C0)
     P.tailBytes = (faultNone && C.fin == "half") ? rng.range(1, 9000) : 0;
     P.pauseBudget = C.pauses / C.sessions;
     P.reserve = size_t(perSess + perSess / 4 + 200000);
-    if (C.cbsend) { P.writePauseProb = 0.6; P.maxWriteChunk = 1500; } // many separate onData callbacks, spread over the forward transfer
+    if (C.rwmin) { P.minWriteChunk = C.rwmin; P.maxWriteChunk = std::max<uint32_t>(C.rwmin, 16384); }
+    else if (C.cbsend) { P.writePauseProb = 0.6; P.maxWriteChunk = 1500; } // many separate onData callbacks, spread over the forward transfer
     if (C.fault == "peer-rst" || C.fault == "peer-fin") { P.abortKind = C.fault == "peer-rst" ? 1 : 2; P.abortAfter = rng.range(1, perSess * 3 / 4 + 1); }
     if (C.fault == "overflow") s.peer.holdReads = true;
     s.peer.cert = H.pki.cert; s.peer.key = H.pki.key;
@@ -669,13 +671,32 @@ int runStream(const Cell &C0)
         if (s->peer.aborted.load() || (s->peer.done.load() && s->peer.eof.load()))
         { key = std::string("C01:stall:close-not-reported:") + C.tr(); what = "the peer ended the connection and the engine went quiet, but the session was never reported closed"; break; }
         if (C.tls && !s->peer.handshakeDone.load() && !s->peer.done.load()) { key = "C01:stall:handshake-no-progress:tls"; what = "TLS handshake stopped making progress with sends queued"; break; }
-        if (acc > got && peerIdle && s->peer.pendingAtIdle.load() == 0 && q.fd >= 0 && q.outq > 0)
-        { key = std::string("C01:stall:kernel-not-delivering:") + C.tr(); what = "no progress, but the undelivered bytes sit in the kernel send queue of the engine's socket (not an engine stall)"; break; }
-        if (wrote > rx && q.fd >= 0 && q.inq == 0 && !(acc > got))
-        { key = std::string("C01:stall:kernel-not-delivering:") + C.tr(); what = "no progress, but the engine's socket has nothing to read: the peer's bytes are still in the kernel (not an engine stall)"; break; }
+        // Where are the outstanding bytes? Decided from the kernel queues on both ends, never from time alone.
+        //  tx: accepted > received by the peer, peer blocked in read with nothing pending:
+        //      engine socket send queue > 0 -> the kernel holds them (not the engine); == 0 -> the engine holds them and does not write.
+        //  rx: peer wrote > handed to onData:
+        //      engine socket has unread bytes                      -> the engine does not read (lost read re-arm);
+        //      engine socket empty AND peer send queue empty       -> every byte the peer wrote was read from the kernel BY THE ENGINE,
+        //                                                             the missing ones are inside it (TLS record buffer / own buffers): withheld;
+        //      engine socket empty, peer send queue > 0            -> still in the kernel on the peer's side (not the engine).
+        int peerOutq = s->peer.sendQueueAtIdle.load();
+        d << ",\"peer_socket_unsent_bytes\":" << peerOutq;
+        std::string kKey, kWhat;
         if (acc > got && peerIdle && s->peer.pendingAtIdle.load() == 0)
-        { key = std::string("C01:stall:tx-no-progress:") + C.tr(); what = "accepted bytes outstanding, peer blocked in read on an empty socket, engine bytesOut not advancing, session not closed (lost write re-arm)"; break; }
-        if (wrote > rx) { key = std::string("C01:stall:rx-no-progress:") + C.tr(); what = "peer wrote bytes that were never handed to onData, engine bytesIn not advancing, session not closed (lost read re-arm)"; break; }
+        {
+          if (q.fd >= 0 && q.outq > 0) { kKey = std::string("C01:stall:kernel-not-delivering:") + C.tr(); kWhat = "no progress, but the undelivered bytes sit in the kernel send queue of the engine's socket (not an engine stall)"; }
+          else { key = std::string("C01:stall:tx-no-progress:") + C.tr(); what = "accepted bytes outstanding, peer blocked in read on an empty socket, engine socket send queue empty, engine bytesOut not advancing, session not closed (lost write re-arm)"; break; }
+        }
+        if (wrote > rx)
+        {
+          if (q.fd >= 0 && q.inq > 0)
+          { key = std::string("C01:stall:rx-no-progress:") + C.tr(); what = "peer wrote bytes that were never handed to onData; they sit unread in the engine's socket, engine bytesIn not advancing, session not closed (lost read re-arm)"; break; }
+          if (q.fd >= 0 && q.inq == 0 && peerOutq == 0)
+          { key = std::string("C01:stall:rx-withheld:") + C.tr(); what = "peer wrote bytes that were never handed to onData although the peer's send queue and the engine socket's receive queue are both empty: the engine took them from the kernel and withholds them, session not closed"; break; }
+          if (q.fd >= 0 && q.inq == 0 && peerOutq > 0 && kKey.empty())
+          { kKey = std::string("C01:stall:kernel-not-delivering:") + C.tr(); kWhat = "no progress, but the peer's bytes are still in the peer socket's send queue while the engine's socket is empty (not an engine stall)"; }
+        }
+        if (!kKey.empty()) { key = kKey; what = kWhat; break; }
         if (C.fault == "app-close" && appCloseIssued) { key = std::string("C01:stall:close-not-reported:") + C.tr(); what = "close(sid) was accepted but onClose never fired"; break; }
       }
       if (key.empty()) { key = std::string("C01:stall:unclassified:") + C.tr(); what = "no progress and none of the characterised shapes applies"; }
@@ -777,6 +798,7 @@ int runStream(const Cell &C0)
   O.obs("shim_send_calls", sp.sendCalls.load()); O.obs("shim_recv_calls", sp.recvCalls.load());
   O.obs("tls_want_read", g_wantRead.load()); O.obs("tls_want_write", g_wantWrite.load());
   O.obs(C.tls ? "sends_accepted_before_tls_handshake" : "sends_accepted_before_connect_or_in_accept", early);
+  if (C.tls && !C.et && C.iochunk <= 2048 && C.rwmin >= 8192) O.obs("tls_level_triggered_cells_with_read_chunk_below_record_size");
   if (C.cbsend)
   {
     O.obs("callback_sender_cells"); O.obs("callback_sends_on_io_thread", sum([](Sess &s) { return uint64_t(s.cbCount); }));
@@ -1053,7 +1075,7 @@ int main(int argc, char **argv)
   C.bytes = a.u("bytes", 200000); C.rbytes = a.u("rbytes", 50000);
   C.permille = uint32_t(a.u("permille", 300)); C.iocap = uint32_t(a.u("iocap", 0)); C.dist = uint32_t(a.u("dist", 0)); C.hsSends = uint32_t(a.u("hssends", 2));
   C.sndbuf = int(a.u("sndbuf", 4096)); C.rcvbuf = int(a.u("rcvbuf", 4096)); C.peerRcvbuf = int(a.u("peerrcvbuf", 8192)); C.iochunk = int(a.u("iochunk", 65536));
-  C.cbsend = a.u("cbsend", 0);
+  C.cbsend = a.u("cbsend", 0); C.rwmin = uint32_t(a.u("rwmin", 0));
   C.pauses = int(a.u("pauses", 100)); C.mwq = size_t(a.u("mwq", 1024)); C.window = a.u("window", 1u << 20);
   C.fin = a.s("fin", "half"); C.fault = a.s("fault", "none");
   C.seed = a.u("seed", 1); C.cell = a.u("cell", 0); C.stallMs = a.u("stallms", 8000); C.watchdogMs = a.u("watchdogms", 240000);
